@@ -10,7 +10,10 @@ _cache = {}
 def asan_env(env):
     """Return env with ASan symbolization switched off (frames are symbolized by symbolize() on demand)."""
     e = dict(env)
-    e["ASAN_OPTIONS"] = e.get("ASAN_OPTIONS", "") + ":symbolize=0:malloc_context_size=3"
+    # small quarantine + no allocation stacks: an item loop that allocates a lot otherwise never reuses memory (256 MB
+    # default quarantine) and unwinds the stack on every malloc/free - measured 10x slower.  Limit: a use-after-free is
+    # only detected while the block is still in the (1 MB) quarantine.
+    e["ASAN_OPTIONS"] = e.get("ASAN_OPTIONS", "") + ":symbolize=0:malloc_context_size=0:quarantine_size_mb=1:thread_local_quarantine_size_kb=64"
     return e
 
 
